@@ -53,19 +53,17 @@ Proof.
 Qed.
 Print Assumptions accessor_in_bounds_partial.
 
-(** Every safe mutator, and by induction every sequence of safe mutators, leaves the extent
-    of the view unchanged and writes only through bounds-checked ranges: if the model does
-    not report a Panic the result has exactly the length of the view.
-    PARTIAL with respect to "no safe mutator changes required_size": that the mutated bytes
-    are still accepted with the same size needs the read-after-write lemmas of
-    [Wire.BitFieldProofs] for each (setter, size field) pair; the finite disjointness table
-    is [size_determining_setters_are_unsafe] below, the end-to-end statement is checked by
-    the correspondence run (mutator sequences followed by every accessor). *)
-Theorem safe_mutators_preserve_extent_partial :
+(** Every safe mutator -- ALL of them, including the two deliberate exceptions of
+    [safe_setters_preserve_layout] (set_version, UdpDatagramView::set_length) -- and by induction
+    every sequence of safe mutators leaves the extent of the view unchanged and writes only
+    through bounds-checked ranges: if the model does not report a Panic the result has exactly the
+    length of the view.  (That the mutated bytes are also re-validated to the same size is
+    [safe_setters_preserve_layout] below.) *)
+Theorem safe_mutators_preserve_extent :
   forall (k : vkind) (ms : list (N * N * N)) (v v' : bytes),
     run_muts k ms v = Ok v' -> length v' = length v.
 Proof. exact run_muts_length. Qed.
-Print Assumptions safe_mutators_preserve_extent_partial.
+Print Assumptions safe_mutators_preserve_extent.
 
 (** The setters of size-determining fields are exactly the [unsafe fn]s (generated from the
     view sources): no range written by a SAFE generated setter overlaps a field that
@@ -107,7 +105,7 @@ Print Assumptions size_determining_setters_are_unsafe.
     The exceptions -- ScionHeaderView::set_version (directly and through header_mut()) and
     UdpDatagramView::set_length -- are deliberate in the code: they rewrite a field the CONSTRUCTOR
     reads (version check, UDP length) but no accessor re-derives an extent from them (the view is a
-    fat pointer); [Findings_C02] has the witnesses, [safe_mutators_preserve_extent_partial] covers
+    fat pointer); [Findings_C02] has the witnesses, [safe_mutators_preserve_extent] covers
     them for the extent. *)
 Theorem safe_setters_preserve_layout :
   forall (k : vkind) (ms : list (N * N * N)) (v v' : bytes),
